@@ -1008,6 +1008,10 @@ func (u *Unit) atCall(s *State, name string, args []Term, site ssa.Instruction, 
 		}
 		g, err := env.formula(c.Expr)
 		if err != nil {
+			if c.Kind == "at-call" {
+				u.unboundClause(c, err)
+				continue
+			}
 			panic(abortUnit{fmt.Sprintf("%s:%d: %v", c.File, c.Line, err)})
 		}
 		if c.Kind == "assume-at-call" {
